@@ -98,71 +98,92 @@ func watcherPart(r *ev.Run, version string) {
 	}
 	defer os.RemoveAll(base)
 	n := 0
-	for hi, h := range hs {
-		if r.Expired("watcher histories") {
-			break
+	// how new content reaches the live file: written in place (fresh modification time), or staged in a side file
+	// earlier and renamed over it (rename keeps the staged file's old modification time; cp -p, rsync -t and restored
+	// backups look the same). What is reloaded is decided by content, so both must behave alike.
+	for _, staged := range []bool{false, true} {
+		mode := ""
+		if staged {
+			mode = ":staged-file-renamed-into-place"
 		}
-		n++
-		clk := clockwork.NewFakeClockAt(time.Date(2024, 1, 1, 0, 0, 0, 0, time.UTC))
-		vtime.Clock = clk
-		dir := filepath.Join(base, fmt.Sprintf("h%d", hi))
-		s, err := newSubject(dir, content{ID: "WC", Class: "valid", Body: watcherCfg}, content{ID: "WR0", Class: "valid", Body: watcherRules(3)}, version)
-		if err != nil {
-			ev.Harness("watcher part: %v", err)
-		}
-		stop, err := cwbridge.VerifStartedWatcher(s.cfg, &logger.NullLogger{})
-		if err != nil {
-			ev.Harness("watcher part: ConfigWatcher.Start: %v", err)
-		}
-		watcherBarrier("after Start")
-		applied, disk := watcherRules(3), watcherRules(3)
-		for step, c := range h {
-			switch c {
-			case '1':
-				disk = watcherRules(5)
-			case '2':
-				disk = watcherRules(7)
-			case 'b':
-				disk = watcherBadRules
+		for hi, h := range hs {
+			if r.Expired("watcher histories") {
+				break
 			}
-			if c != 't' {
-				if err := os.WriteFile(s.rulesPath, []byte(disk), 0o644); err != nil {
-					ev.Harness("%v", err)
+			n++
+			clk := clockwork.NewFakeClockAt(time.Date(2024, 1, 1, 0, 0, 0, 0, time.UTC))
+			vtime.Clock = clk
+			dir := filepath.Join(base, fmt.Sprintf("h%d%v", hi, staged))
+			s, err := newSubject(dir, content{ID: "WC", Class: "valid", Body: watcherCfg}, content{ID: "WR0", Class: "valid", Body: watcherRules(3)}, version)
+			if err != nil {
+				ev.Harness("watcher part: %v", err)
+			}
+			stop, err := cwbridge.VerifStartedWatcher(s.cfg, &logger.NullLogger{})
+			if err != nil {
+				ev.Harness("watcher part: ConfigWatcher.Start: %v", err)
+			}
+			watcherBarrier("after Start")
+			applied, disk := watcherRules(3), watcherRules(3)
+			for step, c := range h {
+				switch c {
+				case '1':
+					disk = watcherRules(5)
+				case '2':
+					disk = watcherRules(7)
+				case 'b':
+					disk = watcherBadRules
 				}
-				continue
-			}
-			clk.Advance(11 * time.Second)
-			watcherBarrier(fmt.Sprintf("history %s step %d", h, step))
-			oc, _, _ := startupOracle(s.cfgPath, s.rulesPath, version)
-			got := js(s.cfg.GetAllSamplerRules())
-			if oc != nil {
-				if want := js(oc.GetAllSamplerRules()); got != want {
-					what := "changed, acceptable rules"
-					if disk == applied {
-						what = "unchanged rules"
+				if c != 't' {
+					if staged {
+						side := s.rulesPath + ".staged"
+						if err := os.WriteFile(side, []byte(disk), 0o644); err != nil {
+							ev.Harness("%v", err)
+						}
+						old := time.Date(2020, 1, 1, 0, 0, 0, 0, time.UTC)
+						if err := os.Chtimes(side, old, old); err != nil {
+							ev.Harness("%v", err)
+						}
+						if err := os.Rename(side, s.rulesPath); err != nil {
+							ev.Harness("%v", err)
+						}
+					} else if err := os.WriteFile(s.rulesPath, []byte(disk), 0o644); err != nil {
+						ev.Harness("%v", err)
 					}
-					r.Violation("timer-trigger:changed+startup-accepts:not-applied",
-						fmt.Sprintf("history [%s] (w1/w2 = valid rules, wb = rejected rules, t = 11 s of a 10 s reload interval), at step %d: %s on disk, the periodic trigger has had its period, the running rules are still %s; startup gives %s", h, step, what, got, want),
-						map[string]any{"scenario": "watcher", "history": h})
-					break
+					continue
 				}
-				applied = disk
-				r.Add("watcher_reloads_applied_or_same", 1)
-			} else {
-				r.Add("watcher_reloads_rejected", 1)
-				// rejected content: the running configuration must be what it was
-				tmp := filepath.Join(dir, "prev_rules.yaml")
-				os.WriteFile(tmp, []byte(applied), 0o644)
-				pc, _, _ := startupOracle(s.cfgPath, tmp, version)
-				if pc != nil && js(pc.GetAllSamplerRules()) != got {
-					r.Violation("timer-trigger:startup-rejects:applied-anyway", fmt.Sprintf("history [%s] step %d: rejected rules on disk, yet the running rules changed to %s", h, step, got),
-						map[string]any{"scenario": "watcher", "history": h})
-					break
+				clk.Advance(11 * time.Second)
+				watcherBarrier(fmt.Sprintf("history %s step %d", h, step))
+				oc, _, _ := startupOracle(s.cfgPath, s.rulesPath, version)
+				got := js(s.cfg.GetAllSamplerRules())
+				if oc != nil {
+					if want := js(oc.GetAllSamplerRules()); got != want {
+						what := "changed, acceptable rules"
+						if disk == applied {
+							what = "unchanged rules"
+						}
+						r.Violation("timer-trigger:changed+startup-accepts:not-applied"+mode,
+							fmt.Sprintf("history [%s] (w1/w2 = valid rules, wb = rejected rules, t = 11 s of a 10 s reload interval), at step %d: %s on disk, the periodic trigger has had its period, the running rules are still %s; startup gives %s", h, step, what, got, want),
+							map[string]any{"scenario": "watcher" + mode, "history": h})
+						break
+					}
+					applied = disk
+					r.Add("watcher_reloads_applied_or_same", 1)
+				} else {
+					r.Add("watcher_reloads_rejected", 1)
+					// rejected content: the running configuration must be what it was
+					tmp := filepath.Join(dir, "prev_rules.yaml")
+					os.WriteFile(tmp, []byte(applied), 0o644)
+					pc, _, _ := startupOracle(s.cfgPath, tmp, version)
+					if pc != nil && js(pc.GetAllSamplerRules()) != got {
+						r.Violation("timer-trigger:startup-rejects:applied-anyway"+mode, fmt.Sprintf("history [%s] step %d: rejected rules on disk, yet the running rules changed to %s", h, step, got),
+							map[string]any{"scenario": "watcher" + mode, "history": h})
+						break
+					}
 				}
 			}
+			stop()
+			s.close()
 		}
-		stop()
-		s.close()
 	}
 	vtime.Clock = nil
 	r.Add("watcher_histories", int64(n))
